@@ -165,6 +165,8 @@ func c09Alphabet(thorough bool) []string {
 	a = append(a, "bind:A:e1f1:L11lc:lc:d", "bind:B:e11f1:L1lc:lc:d", "unbind:A:e1f1:L11lc:d", "unbind:B:e11f1:L1lc:d", "bind:B:e11f1:L11lc:lc:d")
 	// a write shows that authorisation follows the registry (C03 owns the details)
 	a = append(a, "write:A:e1f1:L1lc:limit:ack:2", "write:B:e1f1:L2lc:limit:ack:2", "write:A:e1f1:L11lc:limit:ack:2")
+	// a delete that carries only the id of the other peer's binding (no addresses)
+	a = append(a, "idrm:b:B", "idrm:b:A")
 	return a
 }
 
